@@ -50,6 +50,8 @@ THEOREMS = {
     "C20_model_is_source_mse": "the translation of ModelEvaluation.mse (through the translated properties predictions / observations: `((P - o[:, None]) ** 2).mean()`), regenerated from /repo's models/main.py on this run (Generated/SrcMetrics.v), equals the model ev_mse for every evaluation object the constructor builds",
     "C20_model_is_source_mse_variance": "the translation of ModelEvaluation.mse_variance (`np.var(((P - o[:, None]) ** 2).mean(axis=1))`) equals ev_mse_variance for every constructed evaluation",
     "C20_model_is_source_inter_chain_mse_variance": "the translation of ModelEvaluation.inter_chain_mse_variance (the loop over np.unique(chain_ids), the mask chain_ids == chain_id, the column selection P[:, mask], the per-chain mean, the append, np.var(np.array(mses))) equals ev_inter_chain for every constructed evaluation",
+    "C20_model_is_source_combination_count": "the translation of models/main.py combination_count (math.factorial raising on a negative argument, //) equals the model combination_count on naturals",
+    "C20_model_is_source_generate_full_combinatoric_space": "the translation of the WHOLE function generate_full_combinatoric_space, regenerated from /repo on this run (Generated/SrcSpace.v), on mapping rows ((name, dose), id), equals the model full_space on the rows (key, id), for every numbering key of the (name, dose) pairs that is injective on the mapping's pairs: the size guard and its raise, zip of the mapping's name and dose columns, itertools.combinations of ALL rows with the screen's arity, the two projections, dict(zip(ids, names))[sample_id], the replicated sample name, and Screen(...) called with the screen's OWN sample_mapping and treatment_mapping",
     "C20_source_synergy_def": "hence, on well-formed input, the TRANSLATED calculate_synergy equals the row-by-row definition synergy_def (C20_synergy_def composed with the link)",
     "C20_source_effect_array_def": "hence, on well-formed input, the TRANSLATED create_single_treatment_effect_array equals effect_array_def",
 }
@@ -99,8 +101,22 @@ EXPLANATION = ("Model: Model/Metrics.v, Model/Synergy.v, Model/Corr.v; definitio
                "x.mean(axis=1) = per-row means (NaN for an empty row, [] for no rows); np.var = population variance (NaN when empty); "
                "np.unique; `a == c` elementwise; `P[:, mask]` = the masked columns of every row, IndexError unless the mask has "
                "shape[1] entries; np.array of a list of floats = the list.  "
+               "combination_count and generate_full_combinatoric_space (models/main.py; configurations C20_COMBINATION_COUNT / C20_SPACE, "
+               "Generated/SrcSpace.v) are re-translated too and proved equal to combination_count / full_space composed with the explicit "
+               "representation map key_rows (end of Model/Corr.v): the translation sees mapping rows ((name, dose), id) with integers for "
+               "the strings / floats, the model rows (key, id); hypothesis: key is injective on the mapping's (name, dose) pairs (true of the "
+               "harness's numbering of distinct pairs).  Which mapping rows are combined, with which arity, that BOTH of the screen's own "
+               "mappings are handed to Screen(...), and the name looked up by id through dict(zip(...)) are read from the source.  Trusted "
+               "primitives there: screen.treatment_space_size = number of mapping rows; screen.treatment_arity; treatment_mapping[0] / [1] "
+               "and sample_mapping[0] / [1] = the columns; math.factorial (ValueError when negative); 1e7 = 10000000 compared exactly; zip; "
+               "itertools.combinations = Corr.combs (ValueError on k < 0); list(...) / np.array(..., dtype=object) = the same nested list; "
+               "c[:, :, j] = the j-th component of every pair, IndexError unless the array is 3-d (non-empty list of k-tuples, k >= 1); "
+               "c.shape[0]; `[x] * n`; np.array of a list; dict(pairs) (later pair wins) and d[k] (KeyError); .astype(str / float) = same "
+               "values; and ONE large one: Screen(names, doses, sample names, plate names, sample_mapping, treatment_mapping) with both "
+               "mappings supplied = keyed lookup of every sample name and every (name, dose) pair in the supplied mapping, ValueError on "
+               "a miss (Corr.space_screen; the pandas-merge assumption above), returning (sample_ids, treatment_ids); plate names unmodelled. "
                "Not linked (left to the correspondence): retrospective.calculate_mse / predict_viability_avg, "
-               "generate_full_combinatoric_space, correlation_matrix, mean_predictions, save_h5 / load_h5.")
+               "correlation_matrix, mean_predictions, save_h5 / load_h5.")
 
 TAGS = {1: "ValueError", 4: "IndexError", 5: "KeyError"}
 NAN = "nan"
